@@ -208,7 +208,8 @@ func c17Run(ctx *Ctx, idx int, seed uint64, profile string) {
 				ctx.Rep.Count("skipped-c01-depth-first-shadowing")
 				continue
 			}
-			id := fmt.Sprintf("c%ds%d", c, k)
+			// the id is the client's to choose: any string, also one that needs escaping inside JSON
+			id := fmt.Sprintf("c%ds%d", c, k) + []string{"", "\"q", "\\b", "\nl", " ü\t"}[(c+2*k)%5]
 			clients[c].Start(id, op.Query, op.Variables, op.OpName)
 			up, err := ups.NextSub(2 * time.Second)
 			if err != nil {
